@@ -70,6 +70,9 @@ func (env *Env) evalInt(e CExpr) string {
 }
 
 func (env *Env) resolveType(text string) types.Type {
+	if t, ok := env.parseTypeText(text); ok {
+		return t
+	}
 	tv, err := types.Eval(env.ex.eng.Fset, env.pkg, token.NoPos, text)
 	if err != nil || !tv.IsType() {
 		// try as expression of type (T)(nil)
